@@ -806,7 +806,8 @@ def sx_call(f, *a, **k):
         return SDict(*a, **k)
     if f is _real_set or f is SSet:
         return SSet(*a)
-    if f is _real_frozenset and a and _deep_sym_in(a):
+    if f is _real_frozenset and a and (_deep_sym_in(a) or type(a0) in (SSet, SDict)):
+        # frozenset(<SSet>) at C level would read the (empty) underlying set, not the association list
         return SSet(*a)
     if f is getattr and len(a) >= 2 and type(a[1]) is SymStr:
         if a[1].is_concrete():
